@@ -540,7 +540,7 @@ impl Property for C04 {
         "C04"
     }
     fn rule(&self) -> String {
-        "honest STREAM histories under random schedules (duplicates, late/batched results): no run returns a data-consistency code (2,3,4,8,9,20000,20001,20006,20010,20011,20012,20017). Non-trivial = history in which some peer received data from >= 2 different senders, with par + (fold over stream or canon) in the script; distinct by (script, schedule) hash".into()
+        "honest STREAM histories under random schedules (duplicates, late/batched results), and for small scripts (<= 4 calls, <= 14 instructions) (for a fifth of them) every schedule of progress actions up to 200 complete schedules: no run returns a data-consistency code (2,3,4,8,9,20000,20001,20006,20010,20011,20012,20017). Non-trivial = history in which some peer received data from >= 2 different senders, with par + (fold over stream or canon) in the script; distinct by (script, schedule) hash".into()
     }
     fn bounds(&self, tier: Tier) -> Value {
         json!({"skeleton_depth": tier.pick(5, 7), "skeleton_size": tier.pick(30, 60), "schedule_len": 60, "peers": "3..5"})
@@ -552,7 +552,7 @@ impl Property for C04 {
         hist_strategy(1, tier.pick(5, 7), tier.pick(30, 60), 60, false)
     }
     fn required_classes(&self) -> Vec<&'static str> {
-        vec!["has_par", "has_fold_stream", "has_canon", "redelivery", "results_with_data", "has_new"]
+        vec!["has_par", "has_fold_stream", "has_canon", "redelivery", "results_with_data", "has_new", "small_script_all_schedules"]
     }
     fn check(&self, case: &HistCase, _tier: Tier) -> CaseResult {
         let h = match simulate(case) {
@@ -569,6 +569,28 @@ impl Property for C04 {
                     viol(&format!("C04:code-{}", c), format!("honest run failed with {}: {}", c, r.out.error_message), &h, r.step),
                     rep,
                 );
+            }
+        }
+        // small scripts: every schedule of progress actions (bounded-exhaustive)
+        if h.script.feat.calls <= 4 && h.script.instr.count() <= 14 && case.extra[0] % 5 == 0 {
+            let mut bad: Option<(i64, String, usize)> = None;
+            let (leaves, runs, exhausted) = explore_all(&h.script, 200, 24, &mut |r: &RunRecord| {
+                let c = r.out.ret_code;
+                if C04_FORBIDDEN.contains(&c) || C04_FORBIDDEN2.contains(&c) {
+                    bad = Some((c, r.out.error_message.clone(), r.step));
+                    return false;
+                }
+                true
+            });
+            rep.evals += runs as u64;
+            if let Some((c, msg, step)) = bad {
+                return CaseResult::Violation(viol(&format!("C04:exhaustive:code-{}", c), format!("some schedule of this small script makes an honest run fail with {}: {} (step {} of the schedule)", c, msg, step), &h, step), rep);
+            }
+            if exhausted {
+                rep.classes.push("small_script_all_schedules".into());
+                rep.classes.push(format!("schedules:{}", if leaves < 10 { "1-9" } else if leaves < 100 { "10-99" } else { "100-200" }));
+            } else {
+                rep.classes.push("small_script_schedule_bound_hit".into());
             }
         }
         let f = &h.script.feat;
